@@ -64,6 +64,22 @@ class FakeElement:
         for c in list(children):
             self.append(c)
 
+    def addnext(self, new):
+        """insert `new` as the following sibling (moving it if it is already in the tree)"""
+        if new._parent is not None:
+            new._parent.remove(new)
+        self._parent.insert(self._parent.index(self) + 1, new)
+
+    def addprevious(self, new):
+        if new._parent is not None:
+            new._parent.remove(new)
+        self._parent.insert(self._parent.index(self), new)
+
+    def getnext(self):
+        sibs = self._parent._children if self._parent is not None else []
+        i = next((k for k, c in enumerate(sibs) if c is self), None)
+        return sibs[i + 1] if i is not None and i + 1 < len(sibs) else None
+
     def replace(self, old, new):
         i = self.index(old)
         self.remove(old)
@@ -161,17 +177,27 @@ def install_xpath(H, svg_cls):
         base = el if el is not None else self.svg_root
         everything = [self.svg_root] + list(self.svg_root.iterdescendants())
         desc = list(base.iterdescendants())
-        if query == ".//svg:*[@id]":
-            out = [e for e in desc if isinstance(e.tag, str) and "id" in e.attrib]
-        elif query == ".//svg:use":
-            out = [e for e in desc if local(e) == "use"]
-        elif query == "descendant-or-self::svg:use":
+        if query == "descendant-or-self::svg:use":
             out = [e for e in [base] + desc if local(e) == "use"]
         else:
-            m = re.fullmatch(r'(?:\.)?//svg:(\*|\w+)\[@id="([^"]+)"\]', query)
-            if not m:
-                raise AssertionError(f"fake tree: unsupported xpath {query!r}")
-            out = [e for e in everything if isinstance(e.tag, str) and e.attrib.get("id") == m.group(2) and (m.group(1) == "*" or local(e) == m.group(1))]
+            # unions of  [.]//svg:<name|*>[ [@id] | [@id="x"] ]   (document order within each part, parts concatenated:
+            # lxml returns unions in document order too, callers here only iterate or test emptiness)
+            out = []
+            for part in (q.strip() for q in query.split("|")):
+                m = re.fullmatch(r'(\.)?//svg:(\*|\w+)(?:\[@id(?:="([^"]+)")?\])?', part)
+                if not m:
+                    raise AssertionError(f"fake tree: unsupported xpath {query!r}")
+                scope = desc if m.group(1) else everything
+                has_pred = part.endswith("]")
+                for e in scope:
+                    if not isinstance(e.tag, str) or not (m.group(2) == "*" or local(e) == m.group(2)):
+                        continue
+                    if has_pred and (("id" not in e.attrib) if m.group(3) is None else e.attrib.get("id") != m.group(3)):
+                        continue
+                    if not any(e is x for x in out):
+                        out.append(e)
+            if "|" in query:
+                out.sort(key=lambda e: next(i for i, x in enumerate(everything) if x is e))
         if expected_result_range and len(out) not in expected_result_range:
             raise ValueError(f"Expected {query} matches in {expected_result_range}, {len(out)} results")
         return out
